@@ -505,3 +505,54 @@ func BadClosedIface(i closedIface, o *cellT, b *implB) int {
 	i.touch(o)
 	return b.w
 }
+
+// ---- ghost receive counts and ghost assignment at a call: no job taken from the queue is dropped
+
+type saver struct {
+	q chan struct{}
+	n int
+}
+
+func (s *saver) flush() { s.n++ }
+
+func (s *saver) GoodDrain(done <-chan struct{}) {
+	for {
+		select {
+		case <-s.q:
+		case <-done:
+			return
+		}
+		s.flush()
+	}
+}
+
+func (s *saver) BadDrain(done <-chan struct{}) {
+	for {
+		select {
+		case <-s.q:
+		case <-done:
+			return
+		}
+		select {
+		case <-done:
+			return // the job just taken is lost
+		default:
+		}
+		s.flush()
+	}
+}
+
+// ---- a closure's contract speaks about the captured variable's value
+
+func GoodCaptured(o *cellT) func() {
+	c := o
+	return func() { c.v = 5 }
+}
+
+// selftest-extra: selftest.GoodCaptured$1
+// selftest-extra: selftest.mkCapturedBad$1
+
+func mkCapturedBad(o *cellT, p *cellT) func() {
+	c := o
+	return func() { c = p; c.v = 5 }
+}
